@@ -54,6 +54,20 @@ theorem run_append (d : StructDesc) (o : Obj) (a b : List Call) :
   | nil => rfl
   | cons c cs ih => simp [run, ih]
 
+theorem skips_false_of_coroutine (m : Method) (h : m.effect = .coroutine) :
+    m.skipsPrologue = false := by
+  simp [Method.skipsPrologue, h]
+
+theorem skips_false_of_returnsStatus (m : Method) (h : m.returnsStatus = true) :
+    m.skipsPrologue = false := by
+  unfold Method.skipsPrologue
+  unfold Method.returnsStatus at h
+  cases he : m.effect <;> cases ho : m.hasOut <;> simp_all
+
+theorem callMethod_checked (m : Method) (o : Obj) (sn : Bool) (args : List ArgVal) (b : BodyRes)
+    (h : m.skipsPrologue = false) : callMethod m o sn args b = callMethodChecked m o sn args b := by
+  simp [callMethod, h]
+
 /-! ### initialize -/
 
 /-- An `initialize` that does not return ok leaves the object exactly as it was. -/
@@ -127,10 +141,16 @@ theorem callMethod_uninit (m : Method) (o : Obj) (sn : Bool) (args : List ArgVal
   obtain ⟨h1, h2⟩ := hu
   have hb : magicBad m o = true := by
     unfold magicBad; split <;> simp [h1, h2]
-  unfold callMethod
-  cases sn
-  · simp [hb, badMagicRet, h2]
-  · simp
+  cases hsk : m.skipsPrologue
+  · rw [callMethod_checked _ _ _ _ _ hsk]
+    unfold callMethodChecked
+    cases sn
+    · simp [hb, badMagicRet, h2]
+    · simp
+  · refine ⟨by simp [callMethod, hsk], ?_⟩
+    intro _ hr
+    rw [skips_false_of_returnsStatus m hr] at hsk
+    exact absurd hsk (by simp)
 
 theorem step_uninit (d : StructDesc) (o : Obj) (c : Call) (hu : Uninit o)
     (hc : c.isInit = true → (step d o c).2 ≠ .st .ok) :
@@ -199,7 +219,8 @@ theorem coroutine_error_disables (m : Method) (hm : m.effect = .coroutine) (o : 
     (hret : (callMethod m o false args b).2 = .st s) (herr : s.isError = true) :
     (callMethod m o false args b).1.magic = DISABLED := by
   have hb : magicBad m o = false := by simp [magicBad, hm, hmagic]
-  unfold callMethod at *
+  rw [callMethod_checked _ _ _ _ _ (skips_false_of_coroutine m hm)] at *
+  unfold callMethodChecked at *
   simp only [Bool.false_eq_true, ↓reduceIte, hb] at *
   split
   · rfl
@@ -219,7 +240,12 @@ theorem statusvar_error_disables (m : Method) (hm : m.effect ≠ .coroutine)
     (hmb : magicBad m o = false) (herr : b.st.isError = true) :
     (callMethod m o false args b).1.magic = DISABLED := by
   have hc : (m.effect == Effect.coroutine) = false := by simpa using hm
-  unfold callMethod
+  have hr : m.returnsStatus = true := by
+    unfold Method.hasStatusVar at hs
+    simp only [hc, Bool.false_or, Bool.and_eq_true] at hs
+    exact hs.1
+  rw [callMethod_checked _ _ _ _ _ (skips_false_of_returnsStatus m hr)]
+  unfold callMethodChecked
   simp only [Bool.false_eq_true, ↓reduceIte, hmb, hc, hs]
   split
   · rfl
@@ -231,7 +257,14 @@ theorem callMethod_disabled (m : Method) (o : Obj) (sn : Bool) (args : List ArgV
     (sn = false → m.returnsStatus = true → m.effect ≠ .pure →
       (callMethod m o sn args b).2 = .st (.err .disabledByPreviousError)) := by
   have hne : DISABLED ≠ MAGIC := by decide
-  unfold callMethod
+  cases hsk : m.skipsPrologue
+  case true =>
+    refine ⟨by simp [callMethod, hsk, hd], ?_⟩
+    intro _ hr _
+    rw [skips_false_of_returnsStatus m hr] at hsk
+    exact absurd hsk (by simp)
+  rw [callMethod_checked _ _ _ _ _ hsk]
+  unfold callMethodChecked
   cases sn
   · by_cases hp : m.effect = .pure
     · -- pure: the body may run, nothing is written
@@ -320,7 +353,8 @@ theorem interleave (m : Method) (hm : m.effect = .coroutine) (o : Obj) (hmagic :
     callMethod m o false args b =
       ({ o with magic := DISABLED }, .st (.err .interleavedCoroutineCalls)) := by
   have hb : magicBad m o = false := by simp [magicBad, hm, hmagic]
-  unfold callMethod
+  rw [callMethod_checked _ _ _ _ _ (skips_false_of_coroutine m hm)]
+  unfold callMethodChecked
   simp [hb, hargs, hm, ha, hne]
 
 /-- What a coroutine call that reaches its body does to `active_coroutine`: it is the coroutine's id
@@ -335,7 +369,8 @@ theorem active_iff_suspension (m : Method) (hm : m.effect = .coroutine) (o : Obj
   have hb : magicBad m o = false := by simp [magicBad, hm, hmagic]
   have hni : ¬(o.active ≠ 0 ∧ o.active ≠ m.coroID) := by
     rcases hact with h | h <;> simp [h]
-  unfold callMethod
+  rw [callMethod_checked _ _ _ _ _ (skips_false_of_coroutine m hm)]
+  unfold callMethodChecked
   simp only [Bool.false_eq_true, ↓reduceIte, hb, hargs, hm, beq_self_eq_true, hni]
   refine ⟨trivial, ?_⟩
   have hep : ∀ (x : Obj) (s : Status), (epilogue x s).active = x.active := by
@@ -367,7 +402,8 @@ theorem suspend_then_other (d : StructDesc) (o : Obj) (hmagic : o.magic = MAGIC)
   have h1 : callMethod ma o false argsa ⟨.suspend, .susp k, point⟩ =
       ({ (({ o with active := 0 } : Obj).setSusp ma.coroID point) with active := ma.coroID },
         .st (.susp k)) := by
-    unfold callMethod
+    rw [callMethod_checked _ _ _ _ _ (skips_false_of_coroutine ma hca)]
+    unfold callMethodChecked
     simp [hba, hargsa, hca, hact, afterBody, hspa, Status.isSuspension, epilogue, Status.isError]
   have h2 := interleave mb hcb
     ({ (({ o with active := 0 } : Obj).setSusp ma.coroID point) with active := ma.coroID })
